@@ -193,15 +193,18 @@ structure RT where
   evs : List Ev
   deriving Repr
 
+/-- `httpResponse, resp.Err = c.httpClient.Do(r.RawRequest); resp.Response = httpResponse`. -/
+def exchange (s : Stack) (a : Nat) : Resp × List Ev :=
+  match s.transportAt a with
+  | .fail e => ({ origin := .roundTrip a, err := some e }, [.raised e])
+  | .resp h => ({ origin := .roundTrip a, http := some h, tag := 2 * a }, [])
+
 /-- `Client.roundTrip`. The deferred function makes `err` and `resp.Err` agree. -/
 def clientRoundTrip (s : Stack) (a : Nat) : RT :=
-  let r0 : Resp := { origin := .roundTrip a }
   if s.getBodyAt a then
-    { resp := some { r0 with err := some .getBody }, err := some .getBody, evs := [.raised .getBody] }
+    { resp := some { origin := .roundTrip a, err := some .getBody }, err := some .getBody, evs := [.raised .getBody] }
   else
-    let (r1, e0) : Resp × List Ev := match s.transportAt a with
-      | .fail e => ({ r0 with err := some e }, [.raised e])
-      | .resp h => ({ r0 with http := some h, tag := 2 * a }, [])
+    let (r1, e0) := exchange s a
     let (r2, e1) := autoRead s r1
     let p := parseResp s r2
     -- client loop, first (built-in) element: `if e := parseResponseBody(c, resp); e != nil { resp.Err = e }`
@@ -256,53 +259,68 @@ def reqSet (resp : Option Resp) : RespAct → Option Resp
   | .clear => resp.map fun r => { r with err := none }
   | _ => resp
 
-/-- The request-level loop `for _, f := range r.afterResponse { … }`. -/
+/-- What one request-level response middleware does with `resp`. -/
+inductive StepOut
+  | cont (resp : Option Resp) (evs : List Ev)             -- returned nil
+  | stop (resp : Option Resp) (e : Err) (evs : List Ev)   -- returned e
+  | crash                                                  -- dereferenced nil
+  deriving Repr
+
+/-- Repaired digest middleware: auto-read and bind the final response like `Client.roundTrip`
+does, returning what `parseResponseBody` returns. -/
+def rebind (s : Stack) (r1 : Resp) : StepOut :=
+  let (r2, e1) := autoRead s r1
+  let p := parseResp s r2
+  match p.ret with
+  | some e => .stop (some p.resp) e (.resend :: e1 ++ p.evs)
+  | none => .cont (some p.resp) (.resend :: e1 ++ p.evs)
+
+/-- Repaired digest middleware: what was read and bound from the 401 is forgotten before the
+second exchange. -/
+def forget (fx : Fixes) (r : Resp) : Resp :=
+  if fx.digestRebind then { r with bodyCached := false, slots := {} } else r
+
+/-- The second exchange of the digest middleware: `resp.Response, err = transport.RoundTrip(&req)`. -/
+def digestResend (fx : Fixes) (s : Stack) (a : Nat) (r0 : Resp) : TOut → StepOut
+  | .fail e => .stop (some { r0 with http := none }) e [.resend, .raised e]
+  | .resp h2 =>
+    let r1 : Resp := { r0 with http := some h2, tag := 2 * a + 1 }
+    if fx.digestRebind then rebind s r1 else .cont (some r1) [.resend]
+
+/-- `handleDigestAuthFunc` on a non-nil response. -/
+def digestStep (fx : Fixes) (s : Stack) (a : Nat) (chalOK : Bool) (re : TOut) (r : Resp) : StepOut :=
+  if r.err ≠ none then .cont (some r) []
+  else match r.http with
+    | none =>
+      if fx.digestRebind then .cont (some r) []         -- repaired: `resp.Response == nil` guard
+      else .crash                                        -- as found: `resp.StatusCode` on a nil *http.Response
+    | some h =>
+      if h.status ≠ 401 then .cont (some r) []
+      else if !chalOK then .stop (some r) .digest [.raised .digest]
+      else digestResend fx s a (forget fx r) re
+
+def stageStep (fx : Fixes) (s : Stack) (a : Nat) (resp : Option Resp) : RAct → StepOut
+  | .mw .nop => .cont resp []
+  | .mw (.ret e) => .stop resp e [.raised e]
+  | .mw (.set e) => .cont (reqSet resp (.set e)) [.raised e]
+  | .mw .clear => .cont (reqSet resp .clear) []
+  | .digest chalOK re =>
+    match resp with
+    | none => .crash                                     -- `resp.Err` on a nil *Response
+    | some r => digestStep fx s a chalOK re r
+
+/-- The request-level loop `for _, f := range r.afterResponse { … }`: as found
+`if err = f(r.client, resp); err != nil { return }`, repaired
+`if e := f(r.client, resp); e != nil { err = e; return }`. -/
 def reqRespLoop (fx : Fixes) (s : Stack) (a : Nat) : Nat → List RAct → Option Resp → Option Err → Att
   | _, [], resp, err => { resp := resp, err := err, evs := [], returned := false, crash := false }
-  | i, .mw m :: rest, resp, err =>
-    let resp1 := reqSet resp m
-    match m with
-    | .ret e => { resp := resp1, err := some e, evs := [.rResp i, .raised e], returned := true, crash := false }
-    | _ =>
-      let err1 := if fx.keepErr then err else none      -- as found: `err = f(...)` overwrites
-      let ev := match m with | .set e => [.raised e] | _ => []
-      let t := reqRespLoop fx s a (i + 1) rest resp1 err1
-      { t with evs := .rResp i :: ev ++ t.evs }
-  | i, .digest chalOK re :: rest, resp, err =>
-    match resp with
-    | none => { resp := none, err := err, evs := [.rResp i], returned := false, crash := true }   -- resp.Err on nil
-    | some r =>
-      let cont (r' : Resp) (evs : List Ev) : Att :=
-        let err1 := if fx.keepErr then err else none
-        let t := reqRespLoop fx s a (i + 1) rest (some r') err1
-        { t with evs := .rResp i :: evs ++ t.evs }
-      if r.err ≠ none then cont r []
-      else match r.http with
-        | none =>
-          if fx.digestRebind then cont r []
-          else { resp := resp, err := err, evs := [.rResp i], returned := false, crash := true }  -- resp.StatusCode on nil
-        | some h =>
-          if h.status ≠ 401 then cont r []
-          else if !chalOK then
-            { resp := resp, err := some .digest, evs := [.rResp i, .raised .digest], returned := true, crash := false }
-          else
-            -- repaired: what was read and bound from the 401 is forgotten before the second exchange
-            let r0 : Resp := if fx.digestRebind then { r with bodyCached := false, slots := {} } else r
-            match re with
-            | .fail e =>
-              { resp := some { r0 with http := none }, err := some e, evs := [.rResp i, .resend, .raised e],
-                returned := true, crash := false }
-            | .resp h2 =>
-              let r1 : Resp := { r0 with http := some h2, tag := 2 * a + 1 }
-              if fx.digestRebind then
-                let (r2, e1) := autoRead s r1
-                let p := parseResp s r2
-                match p.ret with
-                | some e =>
-                  { resp := some p.resp, err := some e, evs := .rResp i :: .resend :: e1 ++ p.evs,
-                    returned := true, crash := false }
-                | none => cont p.resp (.resend :: e1 ++ p.evs)
-              else cont r1 [.resend]
+  | i, act :: rest, resp, err =>
+    match stageStep fx s a resp act with
+    | .crash => { resp := resp, err := err, evs := [.rResp i], returned := false, crash := true }
+    | .stop resp1 e evs => { resp := resp1, err := some e, evs := .rResp i :: evs, returned := true, crash := false }
+    | .cont resp1 evs =>
+      let t := reqRespLoop fx s a (i + 1) rest resp1 (if fx.keepErr then err else none)
+      { t with evs := .rResp i :: evs ++ t.evs }
 
 /-- The nil guard of fixes/C10-5 right after the round trip. -/
 def nilGuard (resp : Option Resp) (err : Option Err) : Option Resp :=
